@@ -6,5 +6,7 @@ CONSTANTS
   Shape = "reseed"
 INVARIANT StreamIsolation
 INVARIANT NoClock
+INVARIANT WordPrivate
+INVARIANT EqualsSequential
 VIEW NoSched
 CHECK_DEADLOCK FALSE
